@@ -365,3 +365,28 @@ Theorem elem_write_refused : forall ideal st try cell v,
   fst (pxstep ideal st (PWriteElem try cell v)) = st /\
   snd (pxstep ideal st (PWriteElem try cell v)) <> o_ok.
 Proof. intros. destruct ideal, try; cbn; split; auto; discriminate. Qed.
+
+(* ---- keyed maps ---- *)
+
+(* a name outside the key type's range denotes no key: it is never found, and
+   no write or delete under it changes the map (integer key kinds) *)
+Theorem key_out_of_range_is_no_key : forall ideal k n m v,
+  is_float k = false -> in_range k n = false ->
+  snd (kstep ideal (KKNum k) m (KGet (NInt n))) = o_undef /\
+  snd (kstep ideal (KKNum k) m (KHas (NInt n))) = o_bool false /\
+  fst (kstep ideal (KKNum k) m (KSet (NInt n) v)) = m /\
+  fst (kstep ideal (KKNum k) m (KDel (NInt n))) = m.
+Proof.
+  intros ideal k n m v F R. unfold kstep, key_parse. rewrite F, R. repeat split.
+Qed.
+
+(* an in-range name is exactly the Go key: a script write is what Go reads *)
+Theorem key_in_range_aliases : forall ideal k n m v x,
+  is_float k = false -> in_range k n = true -> conv_elem ideal v = inl x ->
+  let m1 := fst (kstep ideal (KKNum k) m (KSet (NInt n) v)) in
+  snd (kstep ideal (KKNum k) m1 (KGGet n)) = o_num x /\
+  snd (kstep ideal (KKNum k) m1 (KGet (NInt n))) = o_num x.
+Proof.
+  intros ideal k n m v x F R C. unfold kstep, key_parse. rewrite F, R, C.
+  cbn [fst snd]. unfold m_set. cbn [m_get]. rewrite Z.eqb_refl. split; reflexivity.
+Qed.
